@@ -83,7 +83,15 @@ class World:
         world = self
 
         async def create_connection(factory, host=None, port=None, ssl=None, server_hostname=None, **kw):
-            hp = "%s:%d" % (host.lower(), port)      # name resolution is case-insensitive
+            # name resolution is case-insensitive, and what is resolved (and sent as SNI) is the IDNA form of the name:
+            # CPython applies the idna codec - compatibility mapping, soft hyphens dropped - to whatever name it is given
+            try:
+                resolved = host.encode("idna").decode("ascii") if not host.isascii() else host
+            except UnicodeError:
+                resolved = host
+            hp = "%s:%d" % (resolved.lower(), port)
+            if hp not in world.presents:
+                hp = "%s:%d" % (host.lower(), port)
             if world.race is not None and world.race[0] == hp:
                 # TCP connect + TLS handshake take time: meanwhile somebody else pins this host in the same store
                 from nauyaca.security.tofu import TOFUDatabase
@@ -422,7 +430,10 @@ def nonascii_host_names(rep, own):
     agree with the case folding of the URL parser for every letter, not only for A-Z.)"""
     n = 0
     for low, cap in (("\u00e9cole.ex", "\u00c9COLE.EX"), ("\u00f6kologie.ex", "\u00d6kologie.ex"), ("\u043f\u0440\u0438\u043c\u0435\u0440.ex", "\u041f\u0420\u0418\u041c\u0415\u0420.ex"),
-                     ("\uff4cocalhost.ex", "\uff2cocalhost.ex")):
+                     ("\uff4cocalhost.ex", "\uff2cocalhost.ex"),
+                     # spellings that the resolver maps to the SAME ASCII name (IDNA: full-width letters, a soft hyphen, a script
+                     # letter): the connection goes to the pinned host, so its pin decides
+                     ("localhost.ex", "\uff4cocalhost.ex"), ("localhost.ex", "loc\u00adalhost.ex"), ("localhost.ex", "\u2113ocalhost.ex")):
         for via in ("trust", "import"):
             for ep in ("get", "upload"):
                 hp = low + ":1965"
@@ -430,13 +441,13 @@ def nonascii_host_names(rep, own):
                 try:
                     host, port = split_hp(hp)
                     if via == "trust":
-                        w.db0.trust(cap, port, x509.load_der_x509_certificate(DER["c1"]))
+                        w.db0.trust(cap if cap.lower() == low else low, port, x509.load_der_x509_certificate(DER["c1"]))
                     else:
                         import tomli_w
                         from pathlib import Path
                         p_ = os.path.join(w.dir, "imp.toml")
                         with open(p_, "wb") as f:
-                            tomli_w.dump({"hosts": {"k": {"hostname": cap, "port": port, "fingerprint": FP["c1"],
+                            tomli_w.dump({"hosts": {"k": {"hostname": cap if cap.lower() == low else low, "port": port, "fingerprint": FP["c1"],
                                                           "first_seen": "2025-01-01T00:00:00+00:00", "last_seen": "2025-01-01T00:00:00+00:00"}}}, f)
                         w.db0.import_toml(Path(p_), merge=True)
                     w.presents[hp] = "c2"                      # the host now presents another certificate
